@@ -1130,9 +1130,77 @@ pub struct BigBoxScn {
     /// 8 = Multipoint, 3 = Polyline (one part), 28 = MultipointM
     pub ty: i32,
     pub npts: u32,
+    /// not empty: instead of one large shape, a small multi-part shape of type `ty` with this many
+    /// points in each part (zeros allowed), handed to the public constructor as it is - if the
+    /// constructor accepts it, its boxes are judged
+    #[serde(default)]
+    pub degenerate: Vec<u32>,
+}
+
+/// Degenerate part lists (empty first / middle / last part, one-point parts) away from the origin:
+/// some constructors refuse them by panicking (not judged here), some build a shape - whose box must
+/// then be the extremes of its vertices, in the shape, in its record and in the header.
+fn execute_degenerate(scn: &BigBoxScn, ctx: &mut Ctx) {
+    let ty = scn.ty;
+    if !TYPES.contains(&ty) || is_point(ty) || scn.degenerate.len() > 8 || scn.degenerate.iter().any(|n| *n > 16) {
+        ctx.fail("HARNESS", "invalid-scenario", "big-box", "bad parameters".to_string());
+        return;
+    }
+    let mut c = 0usize;
+    let parts: Vec<Part> = scn
+        .degenerate
+        .iter()
+        .enumerate()
+        .map(|(pi, n)| {
+            let pts = (0..*n as usize)
+                .map(|j| {
+                    c += 1;
+                    [(10.0 + (c % 7) as f64 + (j * j) as f64).to_bits(), (20.0 + ((c * 3) % 5) as f64 + j as f64).to_bits(), if has_z(ty) { (30.0 + (c % 4) as f64).to_bits() } else { 0 }, if has_m(ty) { (1.0 + (c % 3) as f64).to_bits() } else { 0 }]
+                })
+                .collect();
+            Part { kind: if is_polygon(ty) { 0 } else if ty == 31 { (pi % 6) as i32 } else { -1 }, pts }
+        })
+        .collect();
+    let spec = ShapeSpec { ty, parts, ctor: 0 };
+    let Ok(shape) = guarded(|| build(&spec)) else {
+        ctx.stats.reach("degenerate-part-list-refused-by-the-constructor");
+        return;
+    };
+    ctx.stats.reach("degenerate-part-list-built");
+    let g = capture(&shape);
+    if let Some(b) = &g.bbox {
+        check_shape_bbox(ctx, "degenerate-ctor", &g, b);
+    }
+    // written: the record's box and the header's
+    let r = guarded(|| -> Result<Vec<u8>, shapefile::Error> {
+        let mut out = std::io::Cursor::new(Vec::<u8>::new());
+        {
+            let mut w = shapefile::ShapeWriter::new(&mut out);
+            crate::on_shape!(&shape, s => w.write_shape(s)?, ());
+            w.finalize()?;
+        }
+        Ok(out.into_inner())
+    });
+    match r {
+        Err(p) => ctx.fail("C05", "panic", p.site(), format!("writing a {} built from parts of {:?} points: {}", type_name(ty), scn.degenerate, p.text())),
+        Ok(Err(e)) => ctx.fail("C05", "write-ok", "degenerate-ctor", format!("writing a {} built from parts of {:?} points: {:?}", type_name(ty), scn.degenerate, classify(&e))),
+        Ok(Ok(bytes)) => {
+            if bytes.len() >= 100 && g.parts.iter().any(|p| !p.pts.is_empty()) {
+                let mut hdr = [0u64; 8];
+                for (k, h) in hdr.iter_mut().enumerate() {
+                    *h = u64::from_le_bytes(bytes[36 + 8 * k..44 + 8 * k].try_into().unwrap());
+                }
+                check_header_bbox(ctx, "degenerate-ctor", ty, &[&g], &hdr);
+            }
+        }
+    }
 }
 
 pub fn execute_bigbox(scn: &BigBoxScn, ctx: &mut Ctx) {
+    if !scn.degenerate.is_empty() {
+        execute_degenerate(scn, ctx);
+        return;
+    }
     let n = scn.npts as usize;
     if n < 4 || n > 40_000_000 || ![8, 3, 28].contains(&scn.ty) {
         ctx.fail("HARNESS", "invalid-scenario", "big-box", "bad parameters".to_string());
@@ -1204,9 +1272,23 @@ pub fn execute_bigbox(scn: &BigBoxScn, ctx: &mut Ctx) {
 /// unit 0 (quick and thorough): 8 Mi + 2 and 8 Mi + 3 points; unit 1 (thorough): 16 Mi + 2, 4 Mi + 2.
 pub fn bigbox_unit(unit: u64, ctx: &mut Ctx, ctl: &mut crate::scn::UnitCtl) {
     use crate::scn::Scenario;
+    if unit == 0 {
+        // the degenerate part lists first (cheap): 10 multi-part types x 12 part lists
+        for ty in TYPES.iter().copied().filter(|t| !is_point(*t) && ![8, 18, 28].contains(t)) {
+            for list in [vec![0u32, 3], vec![3, 0], vec![0, 0, 4], vec![0, 4, 0, 3], vec![1, 3], vec![3, 1], vec![0, 1, 2], vec![2, 0, 2], vec![0], vec![1], vec![0, 1], vec![4, 4, 0]] {
+                let scn = BigBoxScn { ty, npts: 0, degenerate: list };
+                if !ctl.before_case(|| Scenario::BigBox(scn.clone())) {
+                    continue;
+                }
+                ctx.stats.evaluations += 1;
+                execute_bigbox(&scn, ctx);
+                ctl.after_case(ctx, || Scenario::BigBox(scn.clone()));
+            }
+        }
+    }
     let cases: Vec<(i32, u32)> = if unit == 0 { vec![(8, (8 << 20) + 2), (3, (8 << 20) + 3)] } else { vec![(28, (16 << 20) + 2), (8, (4 << 20) + 2), (3, (2 << 20) + 2)] };
     for (ty, npts) in cases {
-        let scn = BigBoxScn { ty, npts };
+        let scn = BigBoxScn { ty, npts, degenerate: vec![] };
         if !ctl.before_case(|| Scenario::BigBox(scn.clone())) {
             continue;
         }
